@@ -380,6 +380,33 @@ CLONE = [
 U = "src/util.rs"
 U_SIZE_HINT = "    #[cfg_attr(feature = \"inline-more\", inline)]\n    fn size_hint(&self) -> (usize, Option<usize>) {\n        self.iter.size_hint()\n    }\n"
 
+B44_ITER = """
+    // Skips over the first `n` entries in constant time instead of building their keys
+    #[cfg_attr(feature = "inline-more", inline)]
+    fn nth(&mut self, n: usize) -> Option<Self::Item> {
+        self.iter.nth(n).map(iter_element)
+    }
+
+    #[cfg_attr(feature = "inline-more", inline)]
+    fn count(self) -> usize {
+        self.iter.len()
+    }
+
+    #[cfg_attr(feature = "inline-more", inline)]
+    fn last(mut self) -> Option<Self::Item> {
+        self.iter.next_back().map(iter_element)
+    }
+"""
+B44_STRINGS = B44_ITER.replace(".map(iter_element)", ".copied()")
+# the iterator part of /verif/seeded/benign/b4-4.diff
+B44 = [(U, sub(U_SIZE_HINT, U_SIZE_HINT + B44_ITER, nth=0, count=2)), (U, sub(U_SIZE_HINT, U_SIZE_HINT + B44_STRINGS, nth=1, count=2))]
+
+# the forms of /verif/seeded/benign/b4-2.diff that concern the iterators
+B42 = [(U, sub("    (\n        K::try_from_usize(key).unwrap_or_else(|| unreachable!()),\n        *string,\n    )\n", "    match K::try_from_usize(key) {\n        Some(k) => (k, *string),\n        None => unreachable!(),\n    }\n")),
+       (U, sub("self.iter.next().copied()", "self.iter.next().map(|string| *string)")),
+       (U, sub("    pub(crate) fn from_rodeo<S>(rodeo: &'a Rodeo<K, S>) -> Self {\n        Self {\n            iter: rodeo.strings.iter().enumerate(),\n            __key: PhantomData,\n        }\n    }\n",
+               "    fn over(strings: &'a [&'a str]) -> Self {\n        Self {\n            iter: strings.iter().enumerate(),\n            __key: PhantomData,\n        }\n    }\n\n    pub(crate) fn from_rodeo<S>(rodeo: &'a Rodeo<K, S>) -> Self {\n        Self::over(&rodeo.strings)\n    }\n"))]
+
 ITERS = [
     ("i-next-back-calls-next", "Iter::next_back implemented with self.iter.next()", "fail", [(U, sub("self.iter.next_back().map(iter_element)", "self.iter.next().map(iter_element)"))]),
     ("i-nth-back-plus1", "Iter::nth_back(n) calls nth_back(n + 1)", "fail", [(U, sub("self.iter.nth_back(n).map(iter_element)", "self.iter.nth_back(n + 1).map(iter_element)"))]),
@@ -397,7 +424,7 @@ ITERS = [
     ("i-into-iter-strings", "IntoIterator for &RodeoResolver calls self.strings()", "fail", [(RSV, sub("    fn into_iter(self) -> Self::IntoIter {\n        self.iter()", "    fn into_iter(self) -> Self::IntoIter {\n        self.strings()"))]),
     ("i-l-from-reader-rev", "Strings::from_reader built from .iter().rev()", "lost", [(U, sub("iter: rodeo.strings.iter(),", "iter: rodeo.strings.iter().rev(),", nth=1, count=3))]),
     ("i-l-len-override", "ExactSizeIterator for Iter gets fn len = self.iter.len() + 1", "lost", [(U, sub("impl<'a, K: Key> ExactSizeIterator for Iter<'a, K> {}", "impl<'a, K: Key> ExactSizeIterator for Iter<'a, K> {\n    fn len(&self) -> usize { self.iter.len() + 1 }\n}"))]),
-    ("i-l-nth-override", "Iterator for Iter gets a hand-written nth", "lost", [(U, sub("    type Item = (K, &'a str);\n", "    type Item = (K, &'a str);\n\n    fn nth(&mut self, n: usize) -> Option<Self::Item> {\n        self.iter.nth(n + 1).map(iter_element)\n    }\n"))]),
+    ("i-nth-override-plus1", "Iterator for Iter gets a hand-written nth = self.iter.nth(n + 1) (no other override)", "fail", [(U, sub("    type Item = (K, &'a str);\n", "    type Item = (K, &'a str);\n\n    fn nth(&mut self, n: usize) -> Option<Self::Item> {\n        self.iter.nth(n + 1).map(iter_element)\n    }\n"))]),
     ("i-l-count-override", "Iterator for Strings gets fn count", "lost", [(U, sub("    type Item = &'a str;\n", "    type Item = &'a str;\n    fn count(self) -> usize { 0 }\n"))]),
     ("i-l-zip", "Enumerate replaced by (0..).zip(..)", "lost", [(U, sub("iter: rodeo.strings.iter().enumerate(),", "iter: (0..).zip(rodeo.strings.iter()),", nth=0, count=3))]),
     ("i-l-skip", "Iter::next through .skip(1)", "lost", [(U, sub("self.iter.next().map(iter_element)", "self.iter.skip(1).next().map(iter_element)"))]),
@@ -405,6 +432,20 @@ ITERS = [
     ("i-l-unwrap-or-else", "iter_element falls back to key 0 instead of unreachable!()", "lost", [(U, sub("unwrap_or_else(|| unreachable!())", "unwrap_or_else(|| K::try_from_usize(0).unwrap())"))]),
     ("i-l-inherent-next", "an inherent Iter::next shadows the trait method", "lost", [(U, sub("fn iter_element<'a, K>(", "impl<'a, K> Iter<'a, K> {\n    pub fn next(&mut self) -> Option<usize> { None }\n}\n\nfn iter_element<'a, K>("))]),
     ("i-l-macro-impl", "a macro invocation mentioning Iter", "lost", [(U, sub("fn iter_element<'a, K>(", "more_impls!(Iter);\n\nfn iter_element<'a, K>("))]),
+    ("i-h-b44-overrides", "nth / count / last overridden correctly in both Iterator impls (benign b4-4)", "pass", B44),
+    ("i-ov-nth-plus1", "b4-4 with Iter::nth calling self.iter.nth(n + 1)", "fail", B44 + [(U, sub("self.iter.nth(n).map(iter_element)", "self.iter.nth(n + 1).map(iter_element)"))]),
+    ("i-ov-strings-nth-plus1", "b4-4 with Strings::nth calling self.iter.nth(n + 1)", "fail", B44 + [(U, sub("self.iter.nth(n).copied()", "self.iter.nth(n + 1).copied()"))]),
+    ("i-ov-last-via-next", "b4-4 with Iter::last = self.iter.next().map(iter_element)", "fail", B44 + [(U, sub("    fn last(mut self) -> Option<Self::Item> {\n        self.iter.next_back().map(iter_element)", "    fn last(mut self) -> Option<Self::Item> {\n        self.iter.next().map(iter_element)"))]),
+    ("i-ov-strings-last-via-next", "b4-4 with Strings::last = self.iter.next().copied()", "fail", B44 + [(U, sub("    fn last(mut self) -> Option<Self::Item> {\n        self.iter.next_back().copied()", "    fn last(mut self) -> Option<Self::Item> {\n        self.iter.next().copied()"))]),
+    ("i-ov-nth-via-nth-back", "b4-4 with Iter::nth = self.iter.nth_back(n)", "fail", B44 + [(U, sub("self.iter.nth(n).map(iter_element)", "self.iter.nth_back(n).map(iter_element)"))]),
+    ("i-l-ov-count-plus1", "b4-4 with Iter::count = self.iter.len() + 1", "lost", B44 + [(U, sub("    fn count(self) -> usize {\n        self.iter.len()\n", "    fn count(self) -> usize {\n        self.iter.len() + 1\n", nth=0, count=2))]),
+    ("i-l-ov-count-size-hint", "b4-4 with Strings::count = self.iter.size_hint().0", "lost", B44 + [(U, sub("    fn count(self) -> usize {\n        self.iter.len()\n", "    fn count(self) -> usize {\n        self.iter.size_hint().0\n", nth=1, count=2))]),
+    ("i-l-c10-6-front-index", "Iter rebuilt as slice::Iter + a front index, nth advances one too few (seeded C10-6)", "lost", [(U, sub("    iter: iter::Enumerate<slice::Iter<'a, &'a str>>,\n    __key", "    iter: slice::Iter<'a, &'a str>,\n    front: usize,\n    __key"))]),
+    ("i-h-b42-forms", "iter_element as a match, Strings::next with .map(|string| *string), Iter::from_rodeo through a helper over the slice (forms of benign b4-2)", "pass", B42),
+    ("i-elem-match-plus1", "b4-2 forms with match K::try_from_usize(key + 1)", "fail", B42 + [(U, sub("match K::try_from_usize(key) {", "match K::try_from_usize(key + 1) {"))]),
+    ("i-elem-match-swapped", "b4-2 forms with the pair built from the raw index instead of the key (a type error in rustc)", "fail", B42 + [(U, sub("Some(k) => (k, *string),", "Some(_k) => (key, *string),"))]),
+    ("i-l-helper-rev", "b4-2 forms with the helper iterating in reverse", "lost", B42 + [(U, sub("iter: strings.iter().enumerate(),", "iter: strings.iter().rev().enumerate(),"))]),
+    ("i-l-helper-other-arg", "b4-2 forms with the helper called on a sub-slice", "lost", B42 + [(U, sub("Self::over(&rodeo.strings)", "Self::over(&rodeo.strings[1..])"))]),
     ("i-h-reorder", "impl blocks and iter_element moved around", "pass", [(U, move_block("impl<'a, K> DoubleEndedIterator for Strings<'a, K>", "// slice::Iter is exact-size.\n", "impl<'a, K> Iterator for Strings<'a, K>")), (U, move_block("fn iter_element<'a, K>", "        *string,\n    )\n}\n", "// #[derive(Debug)]\n// pub struct LockedIter"))]),
     ("i-h-comments-attrs", "comments and attributes added", "pass", [(U, sub("    fn next_back(&mut self) -> Option<(K, &'a str)> {\n", "    #[inline(always)]\n    #[allow(clippy::all)]\n    // a comment\n    fn next_back(&mut self) -> Option<(K, &'a str)> {\n        /* block comment */\n"))]),
     ("i-h-rename-pattern", "iter_element's tuple pattern renamed", "pass", [(U, sub("(key, string): (usize, &&'a str)", "(idx, s): (usize, &&'a str)")), (U, sub("K::try_from_usize(key)", "K::try_from_usize(idx)")), (U, sub("        *string,", "        *s,"))]),
